@@ -1,11 +1,21 @@
 """C20 -- DEF data is extracted as written, with wildcards and via arrays expanded."""
 import random
-from harness import defgen as dg, circgen as cg
+from harness import defgen as dg, circgen as cg, def_elab as de, def_text as dt
 
 THEOREMS = ['C20_wildcard_resolve', 'C20_wildcard_nearest', 'C20_via_location', 'C20_wire_vias_listing',
             'C20_via_array_members', 'C20_via_array_count', 'C20_via_array_nodup', 'C20_via_array_order',
             'C20_per_layer_wires', 'C20_per_type_vias', 'C20_listing_keys_unique', 'C20_routed_accumulates', 'C20_routed_only',
-            'C20_row_horizontal', 'C20_row_vertical', 'C20_row_negative_step_refuted']
+            'C20_row_horizontal', 'C20_row_vertical', 'C20_row_negative_step_refuted',
+            # transformer callbacks (Model/DefElab.v)
+            'C20_tree_components', 'C20_tree_pins', 'C20_tree_vias', 'C20_tree_nets', 'C20_tree_specialnets',
+            'C20_components_exactly_once', 'C20_pins_exactly_once', 'C20_vias_exactly_once', 'C20_nets_exactly_once',
+            'C20_specialnets_exactly_once', 'C20_dict_last_wins', 'C20_rows_in_order', 'C20_tracks_in_order', 'C20_units_in_order',
+            'C20_header', 'C20_diearea', 'C20_point_as_written', 'C20_net_as_written', 'C20_net_attr_as_written',
+            'C20_rwire_as_written', 'C20_spwire_as_written', 'C20_def_of_tree_listing',
+            # text level (Model/DefText.v)
+            'C20_lexer_word', 'C20_lexer_ignores', 'C20_text_as_words', 'C20_words_roundtrip', 'C20_parse_words', 'C20_parse_words_comment',
+            'C20_parse_print', 'C20_wf_id_iff', 'C20_wf_rvia_iff', 'C20_def_of_text_print', 'C20_def_of_text_words', 'C20_text_components',
+            'C20_text_pins', 'C20_text_nets', 'C20_text_specialnets', 'C20_text_rows_tracks']
 
 WHAT = {'regular-net-wires': 'DefNet.wires raises TypeError on a regular net (int(None): wire() never sets a width)',
         'wildcard-wire-points': 'DefWire.wire_points / DefNet.wires leave a "*" coordinate as None instead of the previous value',
@@ -46,6 +56,10 @@ def run(ck):
     fails = {}            # key -> (replay input, message)   (first failing input per kind of failure)
     net_cases, wire_cases, misc_cases, meta = [], [], [], []
     feat = {}
+    # callback level / text level: per file (definitions shared by its cases, cases, what they are)
+    file_units, cb_seen, cb_cases, cb_count = [], {}, [], {}
+    n_model = ck.scale(70, 1500)
+    CB_CAP = ck.scale(160, 4000)
 
     def note(key, inp, msg):
         if key not in fails:
@@ -70,6 +84,45 @@ def run(ck):
             note(key, inp, msg)
         if i < 2:
             ck.sample({'style': gt['style'], 'text': text[:400]})
+        # callback level and text level: the tree lark builds, what every callback receives / returns, the DefFile
+        if i < n_model and dt.in_domain(text):
+            tree, exc = de.lark_tree(text)
+            try:
+                d2, log, exc2 = de.real_run(text)
+            except de.OutOfDomain:
+                d2, log, exc2, tree = None, [], 'out-of-domain', None
+            if tree is None or d2 is None:
+                note('parse-error', inp, f'recording run: lark tree {exc}, transformer {exc2}')
+            elif de.dump(d2) != de.dump(d):
+                note('recorder-differs', inp, 'the DefFile of the recording transformer differs from def_file.parse')
+            else:
+                defs = [(f'txt_{i}', de.cstr(text)), (f'tr_{i}', de.coq_tree(tree)), (f'df_{i}', de.coq_deffile(d2))]
+                cs = [(f'defelab_case tr_{i} (Some df_{i})', 'elab'), (f'deftext_case txt_{i} (Some tr_{i})', 'text'),
+                      (f'deftext_file_case txt_{i} (Some df_{i})', 'textfile')]
+                for sec, special in (('specialnets', True), ('nets', False)):
+                    for nm, got in getattr(d2, sec).items():
+                        act = dg.net_actual(got)
+                        if isinstance(act['wires'], tuple) or isinstance(act['vias'], tuple):
+                            continue
+                        try:
+                            cs.append((f'deffile_listing_case df_{i} {"true" if special else "false"} {de.cstr(nm)} '
+                                       f'(Some ({dg.coq_wires(act["wires"])})%Z) (Some ({dg.coq_vias(act["vias"])})%Z)', 'listing'))
+                        except Exception:                      # noqa
+                            pass
+                # the printer: print_def of the tree (python twin) is read back by lark as the same tree; the tree is well-formed
+                ptext = dt.py_print(tree)
+                tree2, _ = de.lark_tree(ptext)
+                if tree2 is None or de.coq_tree(tree2) != de.coq_tree(tree):
+                    note('print-roundtrip', inp, 'lark does not read the printed words of the tree back as the tree')
+                cs.append((f'print_case tr_{i} {de.cstr(ptext)} true', 'print'))
+                file_units.append((defs, cs, inp))
+                for name, ccs in log:
+                    cb_count[name] = cb_count.get(name, 0) + 1
+                    for c in ccs:
+                        k = cb_seen.setdefault(name, set())
+                        if c not in k and len(k) < CB_CAP:
+                            k.add(c)
+                            cb_cases.append((c, name, inp))
         # correspondence cases: model on the ground-truth statements vs. what the implementation returned
         for sec, special in (('specialnets', True), ('nets', False)):
             for n in gt[sec]:
@@ -111,7 +164,107 @@ def run(ck):
             out.append(('direct-raises', f'{type(e).__name__}: {e}'))
         for key, msg in out:
             note(key, inp, msg)
+    # ---- stream 3: TEXT level -- what lark accepts and the tree it builds (Model/DefText.v) ---------------------------
+    rng3 = random.Random(ck.seed * 104729 + 20)
+    text_units, tstream, n_ood = [], {}, 0        # (text, cases, info)
+    tab_cases, tab_descs, tab_fails = dt.table_cases()
+    for msg in tab_fails:
+        note('lark-table', {'table': msg}, msg)
+    corner = [(t, 'corner', None) for t in dt.CORNER_TEXTS]
+    for text, stream, must in corner + [dt.gen_text(rng3) for _ in range(ck.scale(330, 8000))]:
+        if not dt.in_domain(text):
+            n_ood += 1
+            continue
+        try:
+            cs, info, fail = dt.text_cases(text)
+        except de.OutOfDomain:
+            n_ood += 1
+            continue
+        inp3 = {'text': text, 'stream': stream}
+        ok = info['raises'] is None
+        tstream[(stream, ok)] = tstream.get((stream, ok), 0) + 1
+        ck.count(1, 'text:' + stream)
+        ck.nontrivial(('t', stream, text[:300], ok))
+        if fail:
+            note('text-' + stream, inp3, fail)
+        if must and not ok:
+            note('parse-error', inp3, f'a rendered DEF file is rejected: {info["raises"]}')
+        if stream == 'corner' and info.get('raises_parse') not in (None, 'ValueError') and ok:
+            note('text-corner', inp3, f'transformer raises {info["raises_parse"]}')
+        text_units.append((text, cs, inp3, info))
     # ---- Coq evaluation ------------------------------------------------------------------------------------------
+    mfiles, mspans = [], []                        # model files of the callback / text level: (text of the .v, [(kind, input)])
+    k = 0
+    while k < len(file_units):
+        chunk = file_units[k:k + 6]
+        k += 6
+        mfiles.append(de.cases_file([c for _, cs, _ in chunk for c, _ in cs], [dd_ for defs, _, _ in chunk for dd_ in defs]))
+        mspans.append([(kind, inp) for _, cs, inp in chunk for _, kind in cs])
+    for k in range(0, len(cb_cases), 500):
+        mfiles.append(de.cases_file([c for c, _, _ in cb_cases[k:k + 500]]))
+        mspans.append([('callback:' + name, inp) for _, name, inp in cb_cases[k:k + 500]])
+    mfiles.append(de.cases_file(tab_cases + dt.int_limit_cases()))
+    mspans.append([('table', d_) for d_ in tab_descs] + [('int-limit', {})] * len(dt.int_limit_cases()))
+    k, size, chunk = 0, 0, []
+    for unit in text_units + [None]:
+        if unit is None or (chunk and size + len(unit[0]) > 30000):
+            defs = [(f'txt_{j}', de.cstr(u[0])) for j, u in enumerate(chunk)]
+            cs, sp = [], []
+            for j, u in enumerate(chunk):
+                for c in u[1]:
+                    cs.append(c.replace(de.cstr(u[0]), f'txt_{j}', 1))
+                    sp.append(('text:' + u[2]['stream'], u[2]))
+            mfiles.append(de.cases_file(cs, defs))
+            mspans.append(sp)
+            chunk, size = [], 0
+        if unit is not None:
+            chunk.append(unit)
+            size += len(unit[0])
+    mouts = ck.coq_eval_many('defm', mfiles, jobs=14)
+    mbad, mran = {}, True
+    for sp, (ok, out) in zip(mspans, mouts):
+        lst = cg.parse_nat_list(out) if ok else None
+        if lst is None:
+            mran = False
+            mbad.setdefault('coqc', []).append(({}, out[-600:]))
+        else:
+            for j in lst:
+                mbad.setdefault(sp[j][0], []).append(sp[j][1])
+
+    def mok(*kinds):
+        return mran and not any(kk == p or kk.startswith(p + ':') for kk in mbad for p in kinds)
+    n_cb = len(cb_cases)
+    n_files = len(file_units)
+    n_listing = sum(1 for _, cs, _ in file_units for _, kind in cs if kind == 'listing')
+    ck.obligation(f'Coq transcription of every DefTransformer callback (Model/DefElab.v) = the real callback on {n_cb} distinct invocations '
+                  f'(arguments as received from lark / from the child callbacks, value returned or entry stored; {sum(cb_count.values())} calls seen)',
+                  mok('callback'), 'correspondence', f'failing: {sorted(kk for kk in mbad if kk.startswith("callback"))}')
+    ck.obligation(f'elab (all callbacks in lark\'s order) of the parse tree = the DefFile def_file.parse returns, every attribute, on {n_files} files',
+                  mok('elab'), 'correspondence', f'{len(mbad.get("elab", []))} files differ')
+    ck.obligation(f'callbacks ; DefRoute (dnet_wires / dnet_vias of the extracted net) = DefNet.wires / DefNet.vias on {n_listing} nets',
+                  mok('listing'), 'correspondence', f'{len(mbad.get("listing", []))} nets differ')
+    n_text = len(text_units) + n_files
+    ck.obligation(f'parse_def (Model/DefText.v: contextual lexer + LALR language of def_file.GRAMMAR) = lark on {n_text} texts: accepts exactly the '
+                  f'same texts and builds the same tree (rendered files, blanks removed, token / character mutations, truncations, {len(dt.CORNER_TEXTS)} probes)',
+                  mok('text'), 'correspondence', f'failing streams: {sorted(kk for kk in mbad if kk.startswith("text"))}')
+    ck.obligation(f'printer and domain: print_def of the tree lark builds = the python twin, which lark reads back as the same tree; wf_tree holds '
+                  f'for the tree of every generated file ({n_files} files): the round-trip theorems apply to them', mok('print'), 'correspondence',
+                  f'{len(mbad.get("print", []))} files differ')
+    ck.obligation(f'def_of_text (parse_def ; elab) = def_file.parse as a whole (DefFile or exception) on the same texts',
+                  mok('textfile', 'text'), 'correspondence', f'{len(mbad.get("textfile", []))} rendered files differ')
+    ck.obligation('lark\'s tables: every accept set the model names is the accept set of an LALR state entered by a terminal; the scanner lark '
+                  f'builds for each of the {len(tab_cases) - 1} accept sets (terminal order, keywords scanned for, strings embedded in ID) is the one '
+                  'the model derives; int() digit limit', mok('table', 'int-limit'), 'correspondence', str(mbad.get('table', ''))[:300])
+    acc_streams = {st for (st, ok) in tstream if ok}
+    rej_streams = {st for (st, ok) in tstream if not ok}
+    ck.obligation('text streams: accepted AND rejected texts among the probes, the blank-free renderings and the mutations; every callback of '
+                  'DefTransformer was invoked', {'corner', 'glued', 'rendered', 'separators', 'char-mutation'} <= acc_streams and
+                  {'corner', 'glued', 'token-mutation', 'char-mutation', 'truncated'} <= rej_streams and
+                  set(cb_count) >= {'point', 'do_step', 'sppoints_via', 'points_via', 'spwire', 'wire', 'spnet_wires', 'net_wires', 'net_pin', 'net_opt',
+                                    'spnets_stmt', 'nets_stmt', 'vias_opt', 'vias_stmt', 'comp_stmt', 'pins_opt', 'pins_stmt', 'design_stmt', 'file_stmt',
+                                    'design', 'start'}, 'coverage', f'{sorted(tstream.items())} {sorted(cb_count.items())}')
+    ck.dist.update({f'text:{st}:{"accepted" if ok else "rejected"}': v for (st, ok), v in tstream.items()})
+    ck.dist['text:outside-domain(code point >= 256 or DO count > 10000)'] = n_ood
     texts, spans = [], []
     for tag, cases, per in (('net', net_cases, 120), ('wire', wire_cases, 400), ('misc', misc_cases, 600)):
         for k in range(0, len(cases), per):
@@ -142,9 +295,14 @@ def run(ck):
     ck.rule('DEF texts rendered from a structured ground truth (header, UNITS, DIEAREA, ROW, TRACKS, VIAS with options, COMPONENTS, PINS, SPECIALNETS, '
             'NETS with pins / USE / ROUTED|FIXED|COVER|NOSHIELD / NEW segments / wildcards / vias plain, oriented, DO-BY-STEP; noise sections; '
             'whitespace, comment and section-order variation): everything parse() returns is compared with the ground truth, which owns the resolved '
-            'coordinates; plus DefNet objects built directly with negative / 30-digit coordinates; all listings compared with the Coq model')
-    ck.trust('NOT modelled: the lark grammar and lexer of def_file.py and the per-statement transformer callbacks (text -> DefFile attributes): '
-             'covered by the ground-truth oracle only',
+            'coordinates; plus DefNet objects built directly with negative / 30-digit coordinates; all listings compared with the Coq model; '
+            'callback level: the recording DefTransformer on the same files (every callback: arguments received, value returned / entry stored; '
+            'whole DefFile); text level: the rendered files, the same token lists with blanks removed / other ignored text, one unusual name or '
+            'number, token- and character-level mutations, truncations, and the probes of harness/def_text.py, each compared with what lark does')
+    ck.trust('modelled, not verified: lark\'s contextual lexer + LALR parser for def_file.GRAMMAR (Model/DefText.v: hand-written recursive descent with '
+             'the accept set of the LALR state at every token; exact correspondence of accepted language and tree on every generated text, accept '
+             'sets and scanners compared with lark\'s tables) and the DefTransformer callbacks (Model/DefElab.v; exact correspondence per callback and '
+             'per file); domain: code points < 256',
              'modelled, not verified: DefWire.wire_points, DefWire.vias, DefNet.wires, DefNet.vias, accumulation of "+ ROUTED" statements, '
              'ROW arithmetic (hand transcription Model/DefRoute.v of the repaired code; exact correspondence on every generated net)',
              'domain of the theorems: first point of a routing statement fully specified (DEF requires it); ROW theorems need a non-negative '
@@ -154,6 +312,10 @@ def run(ck):
         inp, msg = fails[key]
         ck.fail(key, 'def_file: ' + (WHAT.get(key, key) + ' -- ' if key in WHAT else '') + msg,
                 {'component': 'kyupy.def_file', 'input': inp, 'actual': msg})
+    if not fails and mbad:
+        kk = sorted(mbad, key=lambda q: (q == 'coqc', q.startswith('table'), not q.startswith('text:corner'), q))[0]
+        ck.fail('model-disagrees', f'Coq model and implementation disagree ({kk})', {'component': 'Model/DefElab.v / Model/DefText.v',
+                'input': mbad[kk][0] if isinstance(mbad[kk][0], dict) else {}, 'where': kk + ' ' + str(mbad[kk][0])[:300]}, found_input=bool(mbad[kk][0]))
     if not fails and any(bad.values()):
         first = bad['net'][0] if bad['net'] and isinstance(bad['net'][0], int) else None
         ck.fail('model-disagrees', 'Coq model and implementation disagree', {'component': 'Model/DefRoute.v',
